@@ -32,7 +32,10 @@ for sd in sorted(glob.glob("/tmp/seed_C*/m?")) + sorted(glob.glob("/tmp/seed2_C*
         continue
     demo_w = (suite.get("demo_with_change") or {}).get("exit")
     demo_wo = (suite.get("demo_without_change") or {}).get("exit")
+    clean = set((VERIF / "seeded" / "clean_failures.txt").read_text().split())
     new_fail = (suite.get("suite") or {}).get("new_failures")
+    if new_fail is not None:
+        new_fail = [t for t in new_fail if t not in clean]
     ok = suite.get("patch_applies") and demo_w == 1 and demo_wo == 0 and new_fail == []
     labelled = meta.get("property") or re.search(r"(C\d\d)", sd.parent.name).group(1)
     dst = OUT / sid
